@@ -203,6 +203,16 @@ pub fn gen_msg(r: &mut Rng, s: &Arc<Schema>, idx: usize, bt: bool, depth: usize)
     m
 }
 
+/// make `b` set the same oneof members as `a` wherever `a` has a message-typed member set (the case in which
+/// the emitted `<Enum>::merge` keeps the current value and merges into it)
+pub fn align_oneofs(r: &mut Rng, s: &Arc<Schema>, a: &DynMsg, b: &mut DynMsg, depth: usize) {
+    for ((d, sa), sb) in s.decls(a.idx).iter().zip(&a.slots).zip(b.slots.iter_mut()) {
+        if let (Decl::Oneof(vs), Slot::One(t, EVal::Msg(_))) = (d, sa) {
+            if let Some((_, FTy::Msg(j))) = vs.iter().find(|v| v.0 == *t) { *sb = Slot::One(*t, EVal::Msg(gen_msg(r, s, *j, a.bt, depth))); }
+        }
+    }
+}
+
 pub fn fixed_schemas() -> Vec<Schema> {
     let txt = [
         // every codec singular, optional, repeated
@@ -327,7 +337,8 @@ pub fn gen_merge_level(r: &mut Rng, thorough: bool, out: &mut Vec<String>) {
             let fl = if bt { "bt" } else { "hm" };
             let dp = 1 + r.below(3) as usize;
             let x = gen_msg(r, &s, i, bt, dp);
-            let y = gen_msg(r, &s, i, bt, dp);
+            let mut y = gen_msg(r, &s, i, bt, dp);
+            if r.chance(1, 2) { align_oneofs(r, &s, &x, &mut y, dp.saturating_sub(1)); }
             out.push(format!("pbcat {} {} {} {} {} {}", fl, flag_name(), s.sexp(), i, m_sexp(&x), m_sexp(&y)));
             let (mut bx, mut by) = (BytesMut::new(), BytesMut::new());
             x.encode_raw(&mut bx); y.encode_raw(&mut by);
